@@ -342,6 +342,12 @@ def detachConv (s : St) (n : String) (c : String) : St :=
     let s := { s with toconv := sins c (diff ((sget s.toconv c).getD []) only) s.toconv }
     if others.isEmpty then { s with cached := sins c [] s.cached } else s
 
+def isPlainIdList (d : String) : Bool :=
+  d.startsWith "id:" &&
+    let rest := (d.drop 3).toString
+    let parts := rest.splitOn ","
+    !rest.isEmpty && parts.all (fun p => !p.isEmpty && p.all Char.isDigit)
+
 def mkQuery (ids : List Nat) : String := "id:" ++ ",".intercalate (ids.map toString)
 
 /-- the closure of `UpdateTag` for a mark add / mark del (after the `maxUsedStreamID` prologue) -/
@@ -359,7 +365,9 @@ def markUpdate (s : St) (name : String) (addIds delIds : List Nat) : St × Res :
         if fresh.isEmpty then (t1, s)
         else
           let mq := mkQuery fresh
-          let d := if t1.defn == "id:-1" then mq else t1.defn ++ "," ++ (mq.drop 3)
+          let d := if t1.defn == "id:-1" then mq
+                   else if isPlainIdList t1.defn then t1.defn ++ "," ++ (mq.drop 3)
+                   else "(" ++ t1.defn ++ ") or " ++ mq
           ({ t1 with defn := d }, s)
     -- del
     let t :=
@@ -374,6 +382,23 @@ def markUpdate (s : St) (name : String) (addIds delIds : List Nat) : St × Res :
       | some t' => setTag s name { t' with unc := prevU }
       | none => s
     (s, .ok)
+
+/-- one sweep of `createsTagCycle`: resolve every tag whose references are all resolved -/
+def cyclePass (tags : List (String × Tag)) (resolved : List String) : List String :=
+  tags.foldl (fun resolved (n, t) =>
+    if resolved.contains n then resolved
+    else if t.refs.all (fun r => resolved.contains r) then n :: resolved else resolved) resolved
+
+def cycleLoop : Nat → List (String × Tag) → List String → List String
+  | 0, _, resolved => resolved
+  | fuel + 1, tags, resolved =>
+    let r' := cyclePass tags resolved
+    if r'.length == resolved.length then resolved else cycleLoop fuel tags r'
+
+/-- `createsTagCycle`: would replacing `name` by `nt` leave tags that can never be resolved? -/
+def createsTagCycle (tags : List (String × Tag)) (name : String) (nt : Tag) : Bool :=
+  let tags' := tags.map fun (n, t) => if n == name then (n, nt) else (n, t)
+  (cycleLoop (tags'.length + 1) tags' []).length != tags'.length
 
 def step (s : St) (e : Ev) (st : Started) : St × Res :=
   match e with
@@ -490,10 +515,13 @@ def step (s : St) (e : Ev) (st : Started) : St × Res :=
     else
       let nt : Tag := { defn := defn, mainT := f.main, subT := f.sub, mfeat := f.mfeat, sfeat := f.sfeat }
       if nt.refs.contains name then (s, .err)
-      else if name.startsWith "mark/" && !f.idsok then (s, .err)
+      else if (name.startsWith "mark/" || name.startsWith "generated/") && !f.idsok then (s, .err)
       else match sget s.tags name with
         | none => (s, .err)
         | some t =>
+          if nt.refs.any (fun r => (sget s.tags r).isNone) then (s, .err)
+          else if createsTagCycle s.tags name nt then (s, .err)
+          else
           let nt := { nt with color := t.color, convs := t.convs, refBy := t.refBy, unc := rangeSet s.all }
           let before := t.refs
           let after := nt.refs
@@ -528,6 +556,9 @@ def step (s : St) (e : Ev) (st : Started) : St × Res :=
     match sget s.tags name with
     | none => (s, .err)
     | some t =>
+      -- validate the selection before changing anything
+      let attachable := !(t.mfeat &&& fData ≠ 0 || t.sfeat &&& fData ≠ 0 || !t.mainT.isEmpty || !t.subT.isEmpty)
+      if convs.any (fun c => !t.convs.contains c && (!s.convs.contains c || !attachable)) then (s, .err) else
       -- detach deselected converters
       let s := (t.convs.filter (fun c => !convs.contains c)).foldl (fun s c => detachConv s name c) s
       -- attach new ones, stopping at the first error (earlier changes stay: see `api_atomic`)
@@ -544,9 +575,8 @@ def step (s : St) (e : Ev) (st : Started) : St × Res :=
     match sget s.tags name with
     | none => (s, .err)
     | some _ =>
-      let mx := ids.foldl max 0
-      if mx == 0 then (s, .ok)                     -- `maxUsedStreamID--` makes id 0 alone a no-op (F14)
-      else if mx ≥ s.next then (s, .err)
+      if ids.isEmpty then (s, .ok)
+      else if ids.foldl max 0 ≥ s.next then (s, .err)
       else
         let (s, r) := markUpdate s name ids []
         let s := startTagging s st.tag
@@ -556,9 +586,8 @@ def step (s : St) (e : Ev) (st : Started) : St × Res :=
     match sget s.tags name with
     | none => (s, .err)
     | some _ =>
-      let mx := ids.foldl max 0
-      if mx == 0 then (s, .ok)
-      else if mx ≥ s.next then (s, .err)
+      if ids.isEmpty then (s, .ok)
+      else if ids.foldl max 0 ≥ s.next then (s, .err)
       else
         let (s, r) := markUpdate s name [] ids
         let s := startTagging s st.tag
